@@ -53,9 +53,10 @@ BeatsClauses(e) ==
       aligned  |-> e.exc = "" => Len(e.out) = n,
       distance |-> (e.exc = "" /\ Len(e.out) = n) =>
                      \A x, y \in 1..n : (On(x) /\ On(y)) =>
-                        (e.out[x].n * e.out[y].d - e.out[y].n * e.out[x].d) * e.G =
-                        (TicksToAbs(e.tl, e.G, e.t0, e.ts[x]) - TicksToAbs(e.tl, e.G, e.t0, e.ts[y]))
-                           * e.out[x].d * e.out[y].d ]
+                        /\ e.out[x].d > 0 /\ e.G % e.out[x].d = 0
+                        /\ e.out[y].d > 0 /\ e.G % e.out[y].d = 0
+                        /\ e.out[x].n * (e.G \div e.out[x].d) - e.out[y].n * (e.G \div e.out[y].d) =
+                           TicksToAbs(e.tl, e.G, e.t0, e.ts[x]) - TicksToAbs(e.tl, e.G, e.t0, e.ts[y]) ]
 
 SnapperClauses(e) ==
     LET divs == { e.divs[k] : k \in DOMAIN e.divs } IN
